@@ -150,6 +150,10 @@ pub fn run(a: &Args) {
         (0..a.n).map(|_| rng.next()).collect()
     };
     for chunk in subs.chunks(6) {
+        if crate::l2::timeouts() >= crate::l2::ENOUGH_TIMEOUTS {
+            sink.count("stopped-early-after-timeouts");
+            break;
+        }
         let hs: Vec<_> = chunk.iter().map(|&s| std::thread::spawn(move || (s, scenario(s)))).collect();
         for h in hs {
             match h.join() {
